@@ -20,6 +20,10 @@ GenNext ==
           /\ (Focus = "ept" => i.k \in {"ept", "tomb"} /\ i.e = "eB" /\ link = "down")
           \* "pt": during the outage nothing but one kind of node point of existing nodes is written
           /\ (Focus = "pt" => i.k = "pt" /\ i.e \notin Fresh /\ link = "down")
+          \* "rewrite": one node point of one node is written once while the link is up and twice during the
+          \* outage (the driver gives every write of a side the same content: a side may be asked to store what
+          \* it already holds, with a newer time)
+          /\ (Focus = "rewrite" => i.k = "pt" /\ i.e = "eA" /\ (link = "down" <=> writes >= 1))
           \* an upstream that is being restarted takes no writes
           /\ (kind = "restart" => s = "D")
           \* a node is only written to / deleted where it is currently visible (C02: "nodes visible
